@@ -119,11 +119,11 @@ type evSpec struct {
 
 func (e *evSpec) converts() bool { return e.malform == "" }
 
-func jB(hexs string) string  { return `{"type":"ByteVec","value":"` + hexs + `"}` }
-func jU(dec string) string   { return `{"type":"U256","value":"` + dec + `"}` }
-func jI(dec string) string   { return `{"type":"I256","value":"` + dec + `"}` }
-func jBool(b bool) string    { return fmt.Sprintf(`{"type":"Bool","value":%v}`, b) }
-func jAddr(a string) string  { return `{"type":"Address","value":"` + a + `"}` }
+func jB(hexs string) string { return `{"type":"ByteVec","value":"` + hexs + `"}` }
+func jU(dec string) string  { return `{"type":"U256","value":"` + dec + `"}` }
+func jI(dec string) string  { return `{"type":"I256","value":"` + dec + `"}` }
+func jBool(b bool) string   { return fmt.Sprintf(`{"type":"Bool","value":%v}`, b) }
+func jAddr(a string) string { return `{"type":"Address","value":"` + a + `"}` }
 func jArr(xs ...string) string {
 	return `{"type":"Array","value":[` + strings.Join(xs, ",") + `]}`
 }
@@ -246,7 +246,7 @@ func renderEvs(es []*evSpec) string {
 // ---------------------------------------------------------------------------------------------
 // token metadata answers (POST /contracts/multicall-contract)
 
-// tiAnswer is the node's answer for one token id. shape: "e" = HTTP 500; otherwise a list of call results, each
+// tiAnswer is the node's answer for one token id. shape: "e" = HTTP 500, "e400" / "e404" = HTTP 400 / 404; otherwise a list of call results, each
 // "F" (CallContractFailed), "N" (not an object: both variants nil) or "S<ret>/<ret>.." with ret one of
 // B<hex-or-junk> (ByteVec), U<dec> (U256), Z (Bool), "" (no returns)
 type tiAnswer struct {
@@ -257,8 +257,13 @@ type tiAnswer struct {
 // script has exactly one result per token method (0 symbol, 1 name, 2 decimals) and three calls were made, the
 // results are arranged by the requested method indices; degenerate scripts are served positionally.
 func (a tiAnswer) body(methods []int32) (int, string) {
-	if a.shape == "e" {
+	switch a.shape {
+	case "e":
 		return 500, `{"detail":"scripted failure"}`
+	case "e400": // what a real node says about a contract that does not exist (yet)
+		return 400, `{"detail":"contract does not exist"}`
+	case "e404":
+		return 404, `{"resource":"x","detail":"not found"}`
 	}
 	var rs []string
 	if a.shape != "" {
@@ -325,10 +330,11 @@ type fakeNode struct {
 	srv *httptest.Server
 	log []string // request/answer log since the last takeLog()
 
-	gov string // governance contract address the watcher is configured with
-	group int32 // chain group the watcher of this case is configured with (checked on page and chain-info requests)
-	key string // X-API-KEY of the current case: late requests of an earlier case's goroutines are refused and not logged
-	seq int
+	gov   string // governance contract address the watcher is configured with
+	group int32  // chain group the watcher of this case is configured with (checked on page and chain-info requests)
+	key   string // X-API-KEY of the current case (and watcher incarnation): late requests of an earlier case's / incarnation's goroutines are refused and not logged
+	seq   int
+	epoch int // watcher incarnations within the case (restart scenarios)
 
 	// tables; a missing key means the node answers 404, a key in errs means HTTP 500
 	errs    map[string]bool // "main:<bh>", "hdr:<bh>", "height", "status:<tx>", "txev:<tx>", "count", "page:<start>"
@@ -372,6 +378,7 @@ func (n *fakeNode) reset() {
 	n.mu.Lock()
 	defer n.mu.Unlock()
 	n.seq++
+	n.epoch = 0
 	n.key = fmt.Sprintf("case-%d", n.seq)
 	n.group = int32(n.seq % 4)
 	n.log = nil
@@ -398,6 +405,22 @@ func (n *fakeNode) reset() {
 	n.hgated = false
 	n.harrive = make(chan struct{})
 	n.hrelease = make(chan struct{})
+}
+
+// newEpoch: the watcher of this case is started again (same Watcher value, same client). Requests carry a new key from now on
+// and park at new gates, so a handler that still belongs to the previous incarnation can neither be mistaken for a request of
+// the new one nor write into the log. Tables and the event log stay.
+func (n *fakeNode) newEpoch() string {
+	n.mu.Lock()
+	defer n.mu.Unlock()
+	n.epoch++
+	n.key = fmt.Sprintf("case-%d.%d", n.seq, n.epoch)
+	n.arrive = make(chan struct{})
+	n.release = make(chan struct{})
+	n.harrive = make(chan struct{})
+	n.hrelease = make(chan struct{})
+	n.log = nil
+	return n.key
 }
 
 // grow makes the k-th scripted portion of hidden events visible (caller holds the lock)
@@ -445,6 +468,9 @@ func (n *fakeNode) serve(w http.ResponseWriter, r *http.Request) {
 	key := r.Header.Get("X-API-KEY")
 	n.mu.Lock()
 	stale := key != n.key
+	// the gates are read together with the key: a request belongs to exactly one incarnation and parks at that one's gates
+	gated, arrive, release := n.gated, n.arrive, n.release
+	hgated, harrive, hrelease := n.hgated, n.harrive, n.hrelease
 	n.mu.Unlock()
 	if stale {
 		n.fail(w, 503)
@@ -453,10 +479,6 @@ func (n *fakeNode) serve(w http.ResponseWriter, r *http.Request) {
 	switch {
 	case strings.HasPrefix(p, "/events/contract/") && strings.HasSuffix(p, "/current-count"):
 		addr := strings.TrimSuffix(strings.TrimPrefix(p, "/events/contract/"), "/current-count")
-		n.mu.Lock()
-		gated := n.gated
-		arrive, release := n.arrive, n.release
-		n.mu.Unlock()
 		if gated {
 			// park until the generator releases this tick (or the watcher went away)
 			select {
@@ -579,10 +601,6 @@ func (n *fakeNode) serve(w http.ResponseWriter, r *http.Request) {
 			n.reply(w, 200, fmt.Sprintf(`{"hash":"%s","timestamp":%d,"chainFrom":0,"chainTo":0,"height":%d,"deps":[]}`, bh, h.ts, h.height))
 		}
 	case p == "/blockflow/chain-info":
-		n.mu.Lock()
-		hgated := n.hgated
-		harrive, hrelease := n.harrive, n.hrelease
-		n.mu.Unlock()
 		if hgated {
 			select {
 			case harrive <- struct{}{}:
